@@ -50,6 +50,12 @@ func AcquireDirLock(dir string, fs vfs.FS) (*DirLock, error) {
 		}
 		return nil, err
 	}
+	// The previous owner may have unlinked the LOCK file between our open and our flock:
+	// the lock then sits on an orphaned inode while another process can create and lock a
+	// fresh LOCK file. Only a lock on the file currently at lockPath counts.
+	if !lockFileIsCurrent(fs, f, lockPath) {
+		return nil, fmt.Errorf("dirlock: lock file of %q was replaced during acquisition", dir)
+	}
 	if err := f.Truncate(0); err == nil {
 		pid := os.Getpid()
 		host := ""
@@ -61,6 +67,20 @@ func AcquireDirLock(dir string, fs vfs.FS) (*DirLock, error) {
 	}
 	success = true
 	return &DirLock{file: f, path: lockPath, fs: fs}, nil
+}
+
+// lockFileIsCurrent reports whether the open (and locked) handle f is still the file
+// that path names.
+func lockFileIsCurrent(fs vfs.FS, f vfs.File, path string) bool {
+	held, err := f.Stat()
+	if err != nil {
+		return false
+	}
+	current, err := fs.Stat(path)
+	if err != nil {
+		return false
+	}
+	return os.SameFile(held, current)
 }
 
 // Release unlocks the directory and removes the lock file.
